@@ -381,11 +381,13 @@ def main(argv):
                 c.cov["traces_validated_against_impl"] += len(mlines)
     # block sizes handed to the writer: model vs kBlockSize arithmetic
     if drv:
-        bl = ["B %d" % k for k in (0, 1, 8191, 8192, 8193, 16384, 20000)]
+        rc, kout, _ = run_lines(drv, ["K"])
+        bs = int(kout[0].split()[1]) if kout and kout[0].startswith("K ") else 8192      # regenerated kBlockSize
+        bl = ["B %d" % k for k in (0, 1, bs - 1, bs, bs + 1, 2 * bs, 2 * bs + 3616)]
         rc, bout, _ = run_lines(drv, bl)
         for l, o in zip(bl, bout):
             k = int(l.split()[1])
-            want = "OK " + ",".join(str(min(8192, k - i)) for i in range(0, k, 8192))
+            want = "OK " + ",".join(str(min(bs, k - i)) for i in range(0, k, bs))
             if o != want:
                 c.broken.append("blocks model: %s gives %s expected %s" % (l, o, want))
 
